@@ -234,7 +234,9 @@ func (m *specMonitor) PreConstruct(c *Ctx, sc *EvoScenario) {
 	m.install(c, sc.Opts)
 }
 
-func (m *specMonitor) BeforeEpoch(c *Ctx, sc *EvoScenario, gen int, pop *genetics.Population) { m.inEpoch = true }
+func (m *specMonitor) BeforeEpoch(c *Ctx, sc *EvoScenario, gen int, pop *genetics.Population) {
+	m.inEpoch = true
+}
 
 func (m *specMonitor) AfterEpoch(c *Ctx, sc *EvoScenario, gen int, pop *genetics.Population, err error) bool {
 	if m.skipped || err != nil || m.stop {
